@@ -126,7 +126,7 @@ func (u *Unit) execBuiltin(s *State, f *Frame, x *ssa.Call, b *ssa.Builtin, args
 		if r == nil {
 			u.unsup("len of %s", a.Ty)
 		}
-		f.Vals[x] = Value{T: r, Ty: x.Type()}
+		f.Vals[x] = Value{T: u.fromInt(r, x.Type()), Ty: x.Type()}
 		return nil
 	case "append":
 		return u.execAppend(s, f, x, args)
